@@ -316,6 +316,7 @@ func (h *H) runCons(p *Program) {
 	}
 	nontrivial := false
 	modelOff := false
+	prevBad := map[int]string{}
 	for idx, st := range p.Stmts {
 		res := ss[st.S].Exec(st.SQL)
 		class := res.Class()
@@ -346,6 +347,18 @@ func (h *H) runCons(p *Program) {
 			rep.Hit("cons:roots-evaluated")
 			if prop == "C24" {
 				bad := cs.violating(pt, ct)
+				if asof == "" {
+					// a session that did not ask for dolt_force_transaction_commit must never make the
+					// committed working set (more) invalid, recorded or not: its commit has to be rejected
+					if st.S != 2 {
+						for k, why := range bad {
+							if _, was := prevBad[k]; !was {
+								rep.Violate("C24:commit-introduced-violation:"+strings.Fields(why)[0], fmt.Sprintf("stmt %d (session %d: %s) [class %s] was acknowledged and made child row %d = %v violate %s in the committed working set (recorded in dolt_constraint_violations_c: %v; p=%s c=%s)", idx, st.S, st.SQL, class, k, ct[k], why, recorded[k], pt.Dump(), ct.Dump()), p)
+							}
+						}
+					}
+					prevBad = bad
+				}
 				var ks []int
 				for k := range bad {
 					ks = append(ks, k)
